@@ -23,6 +23,7 @@ type Injector struct {
 	failAt map[string]int
 	fired  map[string]int
 	open   map[string]int // scopes handed out and not yet Done, by kind
+	onCall func(method string, n int)
 }
 
 func NewInjector() *Injector {
@@ -31,6 +32,11 @@ func NewInjector() *Injector {
 
 // FailAt makes the n-th (0-based) call of method fail.
 func (i *Injector) FailAt(method string, n int) { i.mu.Lock(); i.failAt[method] = n; i.mu.Unlock() }
+
+// OnCall installs a callback that runs at every wrapped call (method, 0-based index), before the call
+// reaches the real manager and outside the injector's lock: a point between two of the code's own
+// critical sections where a racing action (a close) can be placed exactly.
+func (i *Injector) OnCall(f func(method string, n int)) { i.mu.Lock(); i.onCall = f; i.mu.Unlock() }
 
 func (i *Injector) Calls(method string) int { i.mu.Lock(); defer i.mu.Unlock(); return i.calls[method] }
 func (i *Injector) Fired(method string) int { i.mu.Lock(); defer i.mu.Unlock(); return i.fired[method] }
@@ -59,9 +65,15 @@ func (i *Injector) Open() map[string]int {
 
 func (i *Injector) hit(method string) error {
 	i.mu.Lock()
-	defer i.mu.Unlock()
 	n := i.calls[method]
 	i.calls[method] = n + 1
+	f := i.onCall
+	i.mu.Unlock()
+	if f != nil {
+		f(method, n)
+	}
+	i.mu.Lock()
+	defer i.mu.Unlock()
 	if at, ok := i.failAt[method]; ok && at == n {
 		i.fired[method]++
 		return fmt.Errorf("rcwrap: injected refusal of %s call #%d: %w", method, n, network.ErrResourceLimitExceeded)
